@@ -278,7 +278,7 @@ PROPS = {
         assumptions=[
             "String::ends_with(':'), String::pop, String == &str are std: assumed specs over the char sequence (vx_ends_with_colon, vx_string_pop, vx_string_eq)",
             "char::is_alphabetic is an uninterpreted predicate",
-            "Options::with_keyword_syntaxes (iterator fold with a closure) is not under contract",
+            "Options::with_keyword_syntaxes is verified at the instantiation `a slice of KeywordSyntax`, its iterator fold rewritten as the loop it denotes with the fold's initial value taken from the source text",
             "`a token is read as a number only if the whole token is a numeric literal`: proved for the leading-digit-symbols path (after fix 8ffb444); with the option "
             "off the clause is violated on the real code and recorded as an open known finding (D7b), reported on every run",
         ],
